@@ -1686,9 +1686,13 @@ func genInbox(r *hx.Rng, c *Case, g, n int) {
 	}
 }
 
-// ---------- websocket connection pool (race / deadlock observation only) ----------
+// ---------- websocket connection pool: add / fetch / remove of one agent's pool (checked), obtained through the
+// process-wide registry by every operation (two agents' pools are created concurrently: "pool" churn, races only) ----------
 
-type poolInst struct{ n int }
+type poolInst struct {
+	n       int
+	checked bool
+}
 
 type poolProv struct {
 	mockprovider.Provider
@@ -1704,19 +1708,76 @@ func (w *poolInst) Close() {}
 
 func (w *poolInst) Exec(g int, o *Op) Out {
 	k := fmt.Sprintf("key-%d", o.U)
+	agent := g % 2
+
+	if w.checked {
+		agent = 0
+	}
+
 	// two agents of one process (framework ids differ) obtain their pools concurrently
-	p := ws.VerifGetConnPool(&poolProv{id: fmt.Sprintf("c13-pool-%d-%d", w.n, g%2)})
+	p := ws.VerifGetConnPool(&poolProv{id: fmt.Sprintf("c13-pool-%d-%d", w.n, agent)})
 
 	switch o.Kind {
 	case "reg":
-		p.Add(k)
+		p.AddConn(k)
 	case "unreg":
 		p.Remove(k)
 	default:
-		_ = p.Fetch(k)
+		return Out{Kind: "present", B: p.FetchConn(k)}
 	}
 
 	return Out{Kind: "ok"}
+}
+
+type poolModel struct{}
+
+func (poolModel) Init() State { return &setState{m: map[int]bool{}} }
+
+func (poolModel) Step(st State, o Op, got Out) (State, bool) {
+	s, _ := st.(*setState)
+
+	switch o.Kind {
+	case "reg", "unreg":
+		n := &setState{m: map[int]bool{}}
+		for k, v := range s.m {
+			if v {
+				n.m[k] = true
+			}
+		}
+
+		if o.Kind == "reg" {
+			n.m[o.U] = true
+		} else {
+			delete(n.m, o.U)
+		}
+
+		return n, got.Kind == "ok"
+	default:
+		return s, got.Kind == "present" && got.B == s.m[o.U]
+	}
+}
+
+func coqPool(_ Case, h []Ev, w []int) string {
+	items := make([]string, len(h))
+
+	for i, e := range h {
+		op, out := fmt.Sprintf("WFetch %d", e.Op.U), "WOk"
+
+		switch e.Op.Kind {
+		case "reg":
+			op = fmt.Sprintf("WAdd %d", e.Op.U)
+		case "unreg":
+			op = fmt.Sprintf("WRemove %d", e.Op.U)
+		}
+
+		if e.Out.Kind == "present" {
+			out = fmt.Sprintf("WPresent %v", e.Out.B)
+		}
+
+		items[i] = hrec(op, out, e)
+	}
+
+	return "HPool " + hx.CoqList(items) + " " + coqNats(w)
 }
 
 // ---------- storage providers: open / configure / close stores concurrently (race / deadlock observation only) ----------
@@ -1837,6 +1898,11 @@ func components() map[string]*Comp {
 			Name: "pool", NoLin: true,
 			New: func(Case, *ctl) (Inst, error) { poolSeq++; return &poolInst{n: poolSeq}, nil },
 			Gen: genReg,
+		},
+		"wspool": {
+			Name: "wspool",
+			New:   func(Case, *ctl) (Inst, error) { poolSeq++; return &poolInst{n: poolSeq, checked: true}, nil },
+			Model: func(Case) Model { return poolModel{} }, Gen: genReg, Coq: coqPool,
 		},
 	}
 }
